@@ -1,5 +1,6 @@
 import Oracle.Common
 import MageModel.Parse.Fields
+import MageModel.Parse.DocText
 import Oracle.Conv
 import MageModel.Gen.Dispatch
 import MageModel.Gen.List
@@ -85,7 +86,7 @@ def proj (j : Json) : R Proj := do
 
 def cfgOf (p : Proj) : MageModel.Parse.Cfg :=
   { fields := MageModel.Parse.commentFields,   -- transcribed (Parse/Fields.lean); the recorded answers are not consulted
-    docText := fun d => (p.docText.lookup d).getD "",
+    docText := MageModel.Parse.DocText.docTextOf,   -- transcribed ast.CommentGroup.Text over the generator's rendering of a doc string
     docSynopsis := fun t => (p.syn.lookup t).getD "" }
 
 def fnJ (f : Function) : Json :=
